@@ -23,6 +23,17 @@ var propMeta = map[string]propInfo{
 	"C01": {Pkg: "store", Level: "exploration", QuickRuns: 4000, QuickBudgetS: 25,
 		Rule:  "one evaluation = one seeded history (5-80 ops over 1-4 users, 1-3 parameter sets, 1-2 store instances with different defaults, clock steps) checked step by step against the store model incl. near-miss sweeps after every write; distinct non-trivial = distinct (configuration, history) with >= 2 acknowledged writes",
 		Real:  realL, Stub: stubsL, Assumptions: assumeL},
+	"X-SIMFS": {Pkg: "store", Level: "exploration", QuickRuns: 3000, QuickBudgetS: 20,
+		Rule: "self-test: random operation sequences against a real temporary directory and simfs; results, error classes and trees must agree", Real: []string{"kernel file system (reference)"}, Stub: []string{"simfs"}},
+	"C02": {Pkg: "store", Level: "exploration", QuickRuns: 4000, QuickBudgetS: 25,
+		Rule:  "one evaluation = one run: a store of reference-written records (any configured set), 2-7 corruptions applied behind the API between operations (36 named operators with a by-construction category: invalid / wrong-digest / still-valid / either), after each the API is driven (authenticate with 4 passwords, list, list-full, add, update, remove, check); distinct non-trivial = distinct (operator, resulting length, parameter set, position) corruptions",
+		Real:  realL, Stub: stubsL, Assumptions: assumeL},
+	"C03": {Pkg: "store", Level: "exploration", QuickRuns: 4000, QuickBudgetS: 25,
+		Rule:  "one evaluation = one run: 4-15 store calls with names outside the grammar (path separators, '..', absolute, NUL, over-long, aliases of a valid user) on a tree with a sibling store, decoys and a sub-directory; whole-tree snapshots before/after, the simfs path log checked against <base>/<name>.{user,admin} and <base>/.tmp/*; plus invalid-named .admin files vs list/check; distinct non-trivial = distinct (operation, name) pairs",
+		Real:  realL, Stub: stubsL, Assumptions: assumeL},
+	"C16": {Pkg: "store", Level: "exploration", QuickRuns: 6000, QuickBudgetS: 25,
+		Rule:  "one evaluation = one run: either a generated directory (0-5 entries of every kind, .tmp absent/dir/with residue, unreadable) judged by Check under 3 permuted directory orders and by Init against the reference predicate, or a 5-30 step history from a valid store with check / work-area / one-file-per-user invariants after every call; distinct non-trivial = distinct directory contents or histories",
+		Real:  realL, Stub: stubsL, Assumptions: assumeL},
 	"C08": {Pkg: "store", Level: "fault_enumeration", QuickRuns: 400, QuickBudgetS: 40,
 		Rule:  "one evaluation = one crash point: for a generated scenario (store with 1-4 reference-written users, aux data of every shape, one init/add/update) EVERY simfs operation boundary of the call and three prefixes inside every write is a crash point; at each, the process-kill image and the power-loss images (all of them when <= limit, else DFS prefix + sampled) are opened with a fresh store and judged by the recovery oracle; distinct non-trivial = distinct (configuration, operation, population, aux size) scenarios swept",
 		Real:  realL, Stub: stubsL, Assumptions: assumeL},
